@@ -259,7 +259,9 @@ func setupParams() {
 	}
 	gcmhkdfParams, err = aesgcmhkdf.NewParameters(aesgcmhkdf.ParametersOpts{KeySizeInBytes: 16, DerivedKeySizeInBytes: 16, HKDFHashType: aesgcmhkdf.SHA256, SegmentSizeInBytes: 64})
 	must(err)
-	ctrhmacParams, err = aesctrhmac.NewParameters(aesctrhmac.ParametersOpts{KeySizeInBytes: 16, DerivedKeySizeInBytes: 16, HkdfHashType: aesctrhmac.SHA256, HmacHashType: aesctrhmac.SHA256, HmacTagSizeInBytes: 16, SegmentSizeInBytes: 64})
+	// derived key size 32 (header length 40) vs 16 for AES-GCM-HKDF (header length 24): in a mixed keyset a failed
+	// candidate consumes a different number of header bytes than the next candidate needs
+	ctrhmacParams, err = aesctrhmac.NewParameters(aesctrhmac.ParametersOpts{KeySizeInBytes: 32, DerivedKeySizeInBytes: 32, HkdfHashType: aesctrhmac.SHA256, HmacHashType: aesctrhmac.SHA256, HmacTagSizeInBytes: 16, SegmentSizeInBytes: 64})
 	must(err)
 	hmacprfParams, err = hmacprf.NewParameters(32, hmacprf.SHA256)
 	must(err)
@@ -402,7 +404,7 @@ func mkStream(k ref.SelKey) keyPair {
 	case "aesgcmhkdf":
 		return sym(aesgcmhkdf.NewKey(gcmhkdfParams, sb(material(k.Type, k.Mat, 16))))
 	case "aesctrhmac":
-		return sym(aesctrhmac.NewKey(ctrhmacParams, sb(material(k.Type, k.Mat, 16))))
+		return sym(aesctrhmac.NewKey(ctrhmacParams, sb(material(k.Type, k.Mat, 32))))
 	}
 	return keyPair{err: fmt.Errorf("unknown streaming type %q", k.Type)}
 }
